@@ -29,7 +29,7 @@ fn groups_for(prop: &str, ctx: &Ctx) -> Vec<Box<dyn Group>> {
         "C08" => vec![Box::new(c08::Framing), Box::new(c08::Huge)],
         "C20" => vec![Box::new(c20::Pair::new()), Box::new(c20::MuxStreams::new()), Box::new(c20::HostsTls::new())],
         "C10" => vec![Box::new(c10::Nested), Box::new(c10::Ctl)],
-        "C11" => vec![Box::new(c11::Chain), Box::new(c10::Nested)],
+        "C11" => vec![Box::new(c11::Chain), Box::new(c10::Nested), Box::new(c10::Ctl)],
         "C02" => vec![Box::new(c02::Headers), Box::new(c02::Head), Box::new(c02::Stack), Box::new(c02::Crawl), Box::new(c02::QueryStr), Box::new(c02::QueryIter), Box::new(c16::EmptyArgs), Box::new(c09::Reply), Box::new(c15::Route),
             Box::new(c16::Present), Box::new(c14::NonceRewrite::new()), Box::new(c06::ListHeader), Box::new(c01::San), Box::new(c18::Replace)],
         _ => vec![],
